@@ -16,6 +16,7 @@ type gwConfig struct {
 	auth          []string // nil = leave the default
 	authSet       bool
 	tlsDisable    bool
+	tlsValue      string // another spelling of the Tls setting, given together with the certificate files
 	hostSelection string // "" = default
 	hosts         []string
 	queryKey      string
@@ -73,6 +74,9 @@ func (c gwConfig) entries() []kvp {
 		e = append(e, kvp{"Server", "Tls", "disable"})
 	} else {
 		e = append(e, kvp{"Server", "CertFile", q(c.certFile)}, kvp{"Server", "KeyFile", q(c.keyFile)})
+		if c.tlsValue != "" {
+			e = append(e, kvp{"Server", "Tls", q(c.tlsValue)})
+		}
 	}
 	if c.hostSelection != "" {
 		e = append(e, kvp{"Server", "HostSelection", q(c.hostSelection)})
